@@ -187,7 +187,7 @@ impl Vm {
     // the caller's stack; in a NEW fiber the closure and the argument become the body's frame slots, in a SUSPENDED
     // fiber the argument — nil if omitted — replaces the top slot, i.e. becomes the value of the pending yield
     // expression; the caller remembers where to continue; every other fiber is untouched.
-    //@fn file=yarel/src/vm.rs path=Vm::load_fiber ret=r
+    //@fn file=yarel/src/vm.rs path=Vm::load_fiber ret=r props=C09,C08
     //@  rewrite R1
     //@  subst "fiber.borrow()" => "self.fiber_content(fiber)"
     //@  subst "(*fiber).as_ptr()" => "gc_cell_ptr(&fiber)"
@@ -215,7 +215,7 @@ impl Vm {
     // `Fiber.yield(arg)` / end of a fiber body (arg None, frames empty). Outside any fiber (no caller): an error.
     // Otherwise the caller becomes active again, the argument — nil if omitted — replaces the top slot of the
     // CALLER's stack (the result of its `call`), the yielding fiber remembers where to continue and forgets its caller.
-    //@fn file=yarel/src/vm.rs path=Vm::unload_fiber ret=r props=C09,C16
+    //@fn file=yarel/src/vm.rs path=Vm::unload_fiber ret=r props=C09,C16,C08
     //@  rewrite R1
     //@  subst "(*caller).as_ptr()" => "gc_cell_ptr(&caller)"
     //@  subst "current.as_mut().unwrap().borrow_mut().caller = None;" => "self.clear_caller(current);"
